@@ -1483,3 +1483,44 @@ _v("c05-r-incremental-makespan-refused", "C05", "refusal", None, [
     (SCH, "        self.schedule[scheduled_operation.machine_id].append(\n            scheduled_operation\n        )\n",
      "        self.schedule[scheduled_operation.machine_id].append(\n            scheduled_operation\n        )\n        if self._makespan is not None:\n            self._makespan = max(self._makespan, scheduled_operation.end_time)\n"),
 ], "a running maximum advanced by add(): bookkeeping of a query, neither accepted as a memo nor reported")
+
+
+# ------------------------------------------------------------------ twins of seed round 8 (feature commits)
+_KM_CTOR = ("        self._cache: dict[str, Any] = {}\n\n",
+            "        self._cache: dict[str, Any] = {}\n        self._earliest_start_memo: dict[int, int] = {}\n\n")
+_KM_RESET = ("        self._cache = {}\n        for subscriber in self.subscribers:\n            subscriber.reset()\n",
+             "        self._cache = {}\n        self._earliest_start_memo = {}\n        for subscriber in self.subscribers:\n            subscriber.reset()\n")
+_KM_UPD = ("        self._job_next_available_time[job_id] = end_time\n        self._cache = {}\n",
+           "        self._job_next_available_time[job_id] = end_time\n        self._cache = {}\n        self._earliest_start_memo.clear()\n")
+_KM_Q = ("        machine_earliest_start_time = min(\n            self._machine_next_available_time[machine_id]\n            for machine_id in operation.machines\n        )\n        job_start_time = self._job_next_available_time[operation.job_id]\n        return max(machine_earliest_start_time, job_start_time)\n",
+         "        known = self._earliest_start_memo.get(operation.operation_id)\n        if known is None:\n            machine_earliest_start_time = min(\n                self._machine_next_available_time[machine_id]\n                for machine_id in operation.machines\n            )\n            job_start_time = self._job_next_available_time[operation.job_id]\n            known = max(machine_earliest_start_time, job_start_time)\n            self._earliest_start_memo[operation.operation_id] = known\n        return known\n")
+_v("c07-r-keyed-memo", "C07", "refactor", None, [(DISP,) + _KM_CTOR, (DISP,) + _KM_RESET, (DISP,) + _KM_UPD, (DISP,) + _KM_Q],
+   "earliest_start_time memoised per operation id, the table emptied by every writer of what it is computed from")
+_v("c09-r-keyed-memo", "C09", "refactor", None, list(VARIANTS[-1]["edits"]), "same keyed memo: a fill before a rejection is no trace")
+_v("c05-r-keyed-memo", "C05", "refactor", None, list(VARIANTS[-1]["edits"]), "same keyed memo, judged by the query-purity rule")
+_v("c07-m-keyed-memo-stale", "C07", "mutant", "R07.e", [(DISP,) + _KM_CTOR, (DISP,) + _KM_RESET, (DISP,) + _KM_Q],
+   "the update path does not empty the table: the filters read start times of an earlier state")
+mutant("c19-z-seeded-if-truthy", "C19", "R19.c", "job_shop_lib/generation/_instance_generator.py",
+       "        self.rng = random.Random(seed)\n",
+       "        self.rng = random.Random()\n        if seed:\n            self.rng.seed(seed)\n",
+       "the RNG is seeded only for a truthy seed: seed 0 is not reproducible")
+refactor("c19-z-seeded-afterwards", "C19", "job_shop_lib/generation/_instance_generator.py",
+         "        self.rng = random.Random(seed)\n",
+         "        self.rng = random.Random()\n        if seed is not None:\n            self.rng.seed(seed)\n",
+         "Random() then .seed(seed) whenever a seed is given: what Random(seed) does")
+ATG = "job_shop_lib/graphs/_build_agent_task_graph.py"
+_TRI_OLD = "    for job in graph.nodes_by_job:\n        for operation1, operation2 in itertools.combinations(job, 2):\n            graph.add_edge(operation1, operation2)\n            graph.add_edge(operation2, operation1)\n"
+refactor("c16-z-triangular-loop", "C16", ATG, _TRI_OLD,
+         "    for job in graph.nodes_by_job:\n        for position, operation1 in enumerate(job):\n            for operation2 in job[position + 1:]:\n                graph.add_edge(operation1, operation2)\n                graph.add_edge(operation2, operation1)\n",
+         "combinations(job, 2) written as a triangular double loop")
+mutant("c16-z-triangular-loop-window", "C16", "R16.e", ATG, _TRI_OLD,
+       "    for job in graph.nodes_by_job:\n        for position, operation1 in enumerate(job):\n            for operation2 in job[position + 1:position + 3]:\n                graph.add_edge(operation1, operation2)\n                graph.add_edge(operation2, operation1)\n",
+       "only the next two operations of the job are connected")
+_v("c01-z-sorted-insert-refused", "C01", "refusal", None, [
+    (SCH, "        self.schedule[scheduled_operation.machine_id].append(\n            scheduled_operation\n        )\n",
+     "        machine_schedule = self.schedule[scheduled_operation.machine_id]\n        position = len(machine_schedule)\n        while position > 0 and machine_schedule[position - 1].start_time > scheduled_operation.start_time:\n            position -= 1\n        machine_schedule.insert(position, scheduled_operation)\n"),
+], "insert at a searched position: whether the list stays in time order is not decided (neither accepted nor reported)")
+mutant("c01-z-insert-at-front", "C01", "R01.a", SCH,
+       "        self.schedule[scheduled_operation.machine_id].append(\n            scheduled_operation\n        )\n",
+       "        self.schedule[scheduled_operation.machine_id].insert(\n            0, scheduled_operation\n        )\n",
+       "a constant position is not an argument about order")
